@@ -44,7 +44,8 @@ _Q = {
     'stream-restart:r>=1': 300, 'stream-restart:reopened-dataset': 150,
     'kind:mem': 25, 'kind:sql': 25, 'kind:submem': 25, 'kind:subsql': 25, 'kind:sqlslice': 25,
     'nul-family-ids': 60, 'cohort=n': 40, 'cohort=1': 30, 'round>=1e5': 300,
-, 'stream-seed=0': 6}
+    'stream-seed=0': 6,
+}
 MIN_HITS = {'quick': _Q, 'thorough': {k: 15 * v for k, v in _Q.items()}}
 TECHNIQUE = ('runtime monitoring: history-table oracle over (seed, cohort, round) for UniformGetClientSampler under hostile '
              'request orders / fresh samplers / set_round_num, and restart-vs-from-zero differential for '
